@@ -115,7 +115,8 @@ def exact_case(ck, d, th, M, label):
     Lss, Lsv, Lvv, X = targets(d, args, M, I)
     A = crys.invlatt
     T = np.zeros((2 * dim, 2 * dim))
-    T[:dim, :dim] = A @ Lss @ A.T; T[:dim, dim:] = A @ Lsv @ A.T; T[dim:, :dim] = (A @ Lsv @ A.T).T; T[dim:, dim:] = A @ Lvv @ A.T
+    T[:dim, :dim] = A @ Lss @ A.T; T[:dim, dim:] = (A @ Lsv @ A.T).T; T[dim:, :dim] = A @ Lsv @ A.T;   # implementation: Lsv[a, b] = <vacancy_a solute_b>
+    T[dim:, dim:] = A @ Lvv @ A.T
     tol = 1e-9 * max(np.abs(T).max(), 1e-300)
     factor = 2 * ZS * ZV / N     # Bform(directed, integer conds) = factor * L(chain, implementation normalisation)
     term, info = netcase.integer_case(c.n, 2 * dim, conds, jumps, T, tol, factor)
@@ -142,9 +143,10 @@ def run(ck):
     polar_seen = 0
     # ---------------- (a) exact tier --------------------------------------------------------------
     exact_cases = []
-    names_exact = ["square", "sq2w", "honeycomb", "rect", "tria"]   # sq2w: two Wyckoff sets with unequal site data
+    # sq2w: two Wyckoff sets with unequal site data; oblique1: point group 2, the exact Lsv has an antisymmetric part
+    names_exact = ["square", "sq2w", "oblique1", "honeycomb", "rect", "tria"]
     if not ck.quick: names_exact += ["sc", "tet"]                   # 3-D: 124 states, 744 edges, 6 correctors
-    for rep in range(ck.n(5, 12)):
+    for rep in range(ck.n(6, 13)):
         nm = names_exact[rep % len(names_exact)]
         crys, chem = gen.named(nm)
         net = network_for(crys, chem, rng)
@@ -172,7 +174,7 @@ def run(ck):
                           "exact_lattice_coords": [[str(x) for x in r] for r in e["info"]["exactL"]]}, key="c01-exact-%d" % c)
     ck.extra["exact_cases"] = len(codes)
     # ---------------- (b) float tier + (c) real GF -------------------------------------------------
-    names = gen.SMALL + ["ortho"] + (["fcc", "bcc", "hcp", "re3", "diamond"] if not ck.quick else ["fcc", "re3"])
+    names = gen.SMALL + ["ortho", "oblique1", "mono"] + (["fcc", "bcc", "hcp", "re3", "diamond", "tric"] if not ck.quick else ["fcc", "re3"])
     ncr = ck.n(9, 40)
     nfloat = 0; nreal = 0
     pool = list(gen.pool(rng, ncr, names=names, random_frac=0.35, nchem_max=2, maxatoms=2))
